@@ -10,7 +10,7 @@ G1 original names: ReadNames asks for num_vars+num_common_exprs and num_cons+num
 S1 the name file scanner and NameProvider::name never read outside the mapped file.
 """
 import re
-from ..cfg import norm_facts, xrender, expand_locals, Facts, kids, strip, walk, cv, render, call_args, call_object
+from ..cfg import reach_calls, norm_facts, xrender, expand_locals, Facts, kids, strip, walk, cv, render, call_args, call_object
 from ..cfg import short_loc as _short_loc
 from ..facts import export_many, AnalysisBroken
 
@@ -42,14 +42,15 @@ def short_loc(l):
 def run(rep, ctx):
     repo = ctx["repo"]
     _REPO[0] = repo
-    jobs = [dict(unit=U, fn=[r"mp::pre::VCString::.*", r"mp::FlatConverter::(PresolveNames|TransferNames2Node|FinishModelInput)",
+    jobs = [dict(unit=U, fn=[r"mp::pre::VCString::.*", r"mp::FlatConverter::(PresolveNames|TransferNames2Node|FinishModelInput|[A-Za-z]*Names[A-Za-z]*)",
                              r"mp::ConstraintKeeper::(CopyNamesFromValueNodes|CopyNames2ValueNodes)",
                              r"mp::ConstraintManager::CopyNamesFromValueNodes",
                              r"mp::pre::(CopyLink|Many2ManyLink)::(PresolveNames|PostsolveNames|CopySrcDest|DistributeFromSrc2Dest|Distr)",
                              r"mp::pre::RangeCon2Slack::PresolveNamesEntry", r"mp::pre::ValueNode::(SetStr|CleanUpAndRealloc_Names|GetStr|GetVal|GetValVec)",
                              r"mp::pre::BasicStaticIndivEntryLink::GetStr", r"mp::pre::Copy", r"mp::pre::CopyRange",
                              r"mp::pre::ValuePresolverImpl::CleanUpNameNodes"], repo=repo),
-            dict(unit=MU, fn=[r"mp::ModelManagerWithProblemBuilder::(ReadNames|SetObjNames)"], repo=repo),
+            dict(unit=MU, fn=[r"mp::ModelManagerWithProblemBuilder::(ReadNames|SetObjNames)"], repo=repo, closure=1,
+                 closure_roots=r"ModelManagerWithProblemBuilder::SetObjNames$"),
             dict(unit="src/nl-reader.cc", fn=[r"mp::NameProvider::.*", r"mp::internal::ReadNames"], repo=repo)]
     F = Facts(export_many(jobs))
     rep.note_units([U, MU, "src/nl-reader.cc"])
@@ -271,7 +272,11 @@ def run(rep, ctx):
     pn = one("mp::FlatConverter::PresolveNames")
     cl = calls(pn, name="CleanUpNameNodes")
     ps = calls(pn, name="PresolveNames")
-    inst = [calls(pn, name="AddVarNames"), calls(pn, name="set_name"), calls(pn, name="CopyNamesFromValueNodes")]
+    # the three installations, made by PresolveNames itself or by a helper it calls after the presolve
+    def installs(nm_):
+        return sorted({a_["i"]: a_ for a_, c_, r_, o_ in reach_calls(F, pn, lambda c: c["k"] in ("CXXMemberCallExpr", "CallExpr") and
+                                                                      (c.get("callee") or "").split("::")[-1] == nm_, depth=1)}.values(), key=lambda x: x["i"])
+    inst = [installs("AddVarNames"), installs("set_name"), installs("CopyNamesFromValueNodes")]
     ok = len(cl) == 1 and len(ps) == 1 and pn.cfg.dominates(cl[0], ps[0]) and all(len(x) == 1 and pn.cfg.dominates(ps[0], x[0]) for x in inst)
     t1.check(ok, "PresolveNames|clean-presolve-install", short_loc(pn.loc),
              "name nodes are cleaned, names presolved, then variable, objective and constraint names installed",
@@ -358,16 +363,23 @@ def run(rep, ctx):
     nctxt = render(kids(ncdecl[0])[0]).replace(" ", "").replace("GetModel().", "") if len(ncdecl) == 1 and kids(ncdecl[0]) else "?"
     lp = [n for n in so.walk() if n["k"] == "ForStmt"]
     lpt = render(lp[0]).replace(" ", "") if len(lp) == 1 else ""
-    nmc = [c for c in calls(so, name="name")]
-    okl = len(rowreq) == 1 and rowreq[0] == nctxt + "+num_objs()" and "io=num_c+o1" in lpt and "io<num_c+o2" in lpt and len(nmc) == 1 and render(call_args(nmc[0])[0]) == "io" and \
-        any(n_["k"] == "BinaryOperator" and render(n_).replace(" ", "") == "io-num_c+1" for n_ in so.walk())
+    # the provider lookup and the generated index, in SetObjNames itself or in a helper it calls per objective
+    nm_reached = list(reach_calls(F, so, lambda c_: c_["k"] == "CXXMemberCallExpr" and (c_.get("callee") or "") == "mp::NameProvider::name", depth=1))
+    nmc = [c_ for a_, c_, r_, o_ in nm_reached]
+    name_arg = render(nm_reached[0][2](call_args(nmc[0])[0])).replace(" ", "") if len(nm_reached) == 1 else "?"
+    gen_ix = False
+    for a_, c_, r_, o_ in nm_reached[:1]:
+        gen_ix = any(n_["k"] == "BinaryOperator" and render(r_(n_)).replace(" ", "") == "io-num_c+1" for n_ in o_.walk())
+    okl = len(rowreq) == 1 and rowreq[0] == nctxt + "+num_objs()" and "io=num_c+o1" in lpt and "io<num_c+o2" in lpt and len(nmc) == 1 and name_arg == "io" and gen_ix
     scn = calls(rn, name="get_names")
     sct = sorted(render(c).replace(" ", "").replace("GetModel().", "") for c in scn)
     okl = okl and any("get_names(num_cons(),num_algebraic_cons())" in t_ for t_ in sct)
     g1.check(okl, "row-layout", short_loc(so.loc), "objective names start after all num_cons() constraint names of the .row file (the count ReadNames requests), generated names count from 1",
              "objective names are taken from row index `%s` + k while the .row file holds %s names before them: with logical constraints an objective gets the name of another item" % (nctxt, rowreq[0].replace("+num_objs()", "") if rowreq else "?"))
-    fb = [n for n in so.walk() if n["k"] == "IfStmt" and "number_read()" in render(kids(n)[0])]
-    g1.check(len(fb) == 1 and "_sobj[" in render(fb[0]), "objective-generic-fallback", short_loc(so.loc), "objective names missing from the .row file are generated")
+    own_ = [so] + [o_ for a_, c_, r_, o_ in nm_reached if o_ is not so]
+    fb = [n for g_ in own_ for n in g_.walk() if n["k"] == "IfStmt" and "number_read()" in render(kids(n)[0])]
+    lits_ = " ".join(x.get("v", "") for g_ in own_ for x in g_.walk() if x["k"] == "StringLiteral")
+    g1.check(len(fb) == 1 and "_sobj[" in lits_, "objective-generic-fallback", short_loc(so.loc), "objective names missing from the .row file are generated")
 
     # ---- S1 ---------------------------------------------------------------------------
     s1 = rep.rule("C19.S1", "SCAN", "name scanner and provider stay inside the mapped file", floor=3)
